@@ -71,6 +71,20 @@ def directed_units(rng, ws, n_each):
     for el in ('int', 'byte', 'bool', 'string'):
         src = 'empty @is_you(int n, int j) { write("<"); %s a[n]; write(a.length); write(">"); }\n' % el
         units.append((src, [Cfg((str(n), '0'), w, 60, False) for n in GRID + [100, 1000, 16383, 16384, -16384] for w in ws]))
+        # lengths whose byte size wraps around the word to something small (element size w, or bits for bool)
+        wrapc = []
+        for w in ws:
+            M = 1 << (8 * w)
+            es = {'int': w, 'string': w, 'byte': 1, 'bool': 1}[el]
+            cand = set()
+            for k in range(1, es + 1):
+                for r in (0, 1, 2, 3, es, 2 * es):
+                    cand.update({(M * k + r) // es, (M * k + r) // es + 1})
+            cand.update({(M >> 1) // es, (M >> 1) // es + 1, (M >> 1) // es - 1, (M >> 1) - 1, (M >> 1) - 8, (M >> 2), (M >> 2) + 1, (M >> 3) + 1, (M >> 4) + 1})
+            if el == 'bool':
+                cand.update({(M >> 1) - 7, (M >> 1) - 6, M - 7, M - 8, (M >> 1) + 1})
+            wrapc += [Cfg((str(n), '0'), w, 60, False) for n in sorted(cand) if 0 < n < M]
+        units.append((src.replace('write(">");', 'if (n > 3) { a[3] = a[1]; } write(">");'), wrapc))
     # nonlocal preempt at return
     src = ('empty !baba(int c) { if (c > 5) { preempt { write("p"); } } write("b"); }\n'
            'empty @is_you(int a, int b) { try { write("<"); !baba(a); !truth_is_defeat(b > 0); write(">"); } undo { write("U"); } write("."); }\n')
